@@ -2,10 +2,14 @@
 C11 — all actions present the same data.
 
 proof : lean/SqlframeModel/Props/C11.lean (count / isEmpty / head / first / show / unique names; C11_program)
-tie   : Gen.Clauses (headLimit, count/show wrap flags, header rule), Gen.Actions, Gen.Row regenerated from
-        /repo; correspondence stream = every action of the real DataFrame vs the model's prediction and vs
-        collect() of the same DataFrame (the property itself), for DataFrames built by C01 programs and
-        by joins that repeat column names.
+tie   : Gen.Clauses (headLimit, count/show wrap flags, header rule), Gen.Actions (which LIMIT node `limit` consults,
+        statement lists, shapes of show/count/head/isEmpty), Gen.Row regenerated from /repo; correspondence stream = every
+        action of the real DataFrame vs the model's prediction and vs collect() of the same DataFrame (the property
+        itself), for DataFrames built by C01 chains, by TREE programs (operands that carry their own ORDER BY / LIMIT /
+        DISTINCT inside CTEs, combined by set operations / unionByName / joins / crossJoin / unpivot / aggregation,
+        with further steps after the combination) and by joins that repeat column names.  On every case the LIMIT
+        nodes sitting in CTE bodies of the real statement and the LIMIT `limit(10^6)` leaves on the outer SELECT are
+        compared with the model's (`histLimits`, `limit11` under `Gen.limitLookup`).
 """
 from __future__ import annotations
 
@@ -15,6 +19,7 @@ import json
 import math
 import os
 import random
+import time
 import typing as t
 
 import c01
@@ -24,12 +29,19 @@ from vlib import Ctx, bag, plain
 
 ID = "C11"
 LEVEL = "proof"
-MODULES = ["SqlframeModel.Codec.C01", "SqlframeModel.Impl.C11", "SqlframeModel.Props.C11"]
-GEN = ["Operations", "Methods", "Clauses", "Row", "Actions"]
+MODULES = ["SqlframeModel.Codec.C01", "SqlframeModel.Codec.C07", "SqlframeModel.Impl.C11", "SqlframeModel.Impl.C11Tree", "SqlframeModel.Props.C11"]
+GEN = ["Operations", "Methods", "Clauses", "Row", "Actions", "SetOps"]
 SOURCES = [
     "SqlframeModel/Props/C11.lean",
     "SqlframeModel/Lemmas/C11.lean",
+    "SqlframeModel/Lemmas/C11Tree.lean",
     "SqlframeModel/Impl/C11.lean",
+    "SqlframeModel/Impl/C11Tree.lean",
+    "SqlframeModel/Impl/C07SetOps.lean",
+    "SqlframeModel/Lemmas/C07DF.lean",
+    "SqlframeModel/Lemmas/C07ByName.lean",
+    "SqlframeModel/Lemmas/C07Bag.lean",
+    "SqlframeModel/Props/C07.lean",
     "SqlframeModel/Props/C01.lean",
     "SqlframeModel/Lemmas/C01.lean",
     "SqlframeModel/Lemmas/C01Wrap.lean",
@@ -82,11 +94,306 @@ def current_cols(c: dict) -> t.List[str]:
     return cols
 
 
-def case_to_lean(i: int, c: dict) -> dict:
-    d = c01.case_to_lean(i, c)
-    d["n"] = c["n"]
-    d["names"] = c["names"]
-    return d
+# ------------------------------------------------------------------------------------------------
+# tree programs: {"env": [{"schema": [[name, type]], "rows": [...]}], "prog": node, "n", "names", "ordered"}
+#   node = {"k": "base", "i"} | {"k": "step", "p", "s": <C01 step>} | {"k": "setop", "m", "l", "r"} | {"k": "byName", "am", "l", "r"}
+#        | {"k": "join", "how", "on", "l", "r"} | {"k": "crossJoin", "l", "r"} | {"k": "agg", "keys", "p"}
+# the first four kinds are inside the Lean model (C07's `Prog` with every C01 step kind); the last three are run on the
+# real code only and judged by the property itself (every action against collect() of the same DataFrame)
+# ------------------------------------------------------------------------------------------------
+
+Schema = t.List[t.Tuple[str, str]]
+SETOPS = ["union", "unionAll", "intersect", "intersectAll", "exceptAll"]
+GROW_KINDS = ["union", "unionAll", "byName", "byNameMissing", "intersectAll", "exceptAll", "intersect", "join", "joinLeft", "crossJoin", "unpivot", "agg"]
+PROBE = 1000000
+
+
+def is_tree(c: dict) -> bool:
+    return "prog" in c
+
+
+def tree_of(c: dict) -> t.Tuple[t.List[dict], dict]:
+    """(env, prog) of any case; a chain is the program step(...step(base 0, s1)..., sk)"""
+    if is_tree(c):
+        return c["env"], c["prog"]
+    prog: dict = {"k": "base", "i": 0}
+    for s in c["steps"]:
+        prog = {"k": "step", "p": prog, "s": s}
+    return [{"schema": [[n, ty] for n, ty in c["schema"].items()], "rows": c["rows"]}], prog
+
+
+def in_lean(p: dict) -> bool:
+    k = p["k"]
+    if k == "base":
+        return True
+    if k == "step":
+        return in_lean(p["p"])
+    if k in ("setop", "byName"):
+        return in_lean(p["l"]) and in_lean(p["r"])
+    return False
+
+
+def schema_of(p: dict, env: t.List[dict]) -> t.Optional[Schema]:
+    """columns (name, type) of a program's result; None = PySpark would reject the program"""
+    k = p["k"]
+    if k == "base":
+        return [(n, ty) for n, ty in env[p["i"]]["schema"]] if 0 <= p["i"] < len(env) else None
+    if k == "step":
+        sch = schema_of(p["p"], env)
+        if sch is None:
+            return None
+        c = {"schema": dict(sch), "rows": [], "steps": [p["s"]]}
+        if not c01.valid(c):
+            return None
+        return list(c01.cols_after(c).items())
+    if k == "agg":
+        sch = schema_of(p["p"], env)
+        if sch is None or not p["keys"] or not set(p["keys"]) <= {n for n, _ in sch} or "c" in p["keys"]:
+            return None
+        return [(n, ty) for n, ty in sch if n in p["keys"]] + [("c", "int")]
+    l, r = schema_of(p["l"], env), schema_of(p["r"], env)
+    if l is None or r is None:
+        return None
+    if k == "setop":
+        return l if [ty for _, ty in l] == [ty for _, ty in r] else None
+    if k == "byName":
+        ld, rd = dict(l), dict(r)
+        if any(rd[n] != ty for n, ty in l if n in rd):
+            return None
+        if not p["am"]:
+            return l if set(ld) == set(rd) else None
+        return l + [(n, ty) for n, ty in r if n not in ld]
+    if k == "crossJoin":
+        return l + r if not {n for n, _ in l} & {n for n, _ in r} else None
+    if k == "join":
+        ld, rd = dict(l), dict(r)
+        on = p["on"]
+        if on not in ld or on not in rd or ld[on] != rd[on] or ({n for n in ld} & {n for n in rd}) != {on}:
+            return None
+        return [(on, ld[on])] + [(n, ty) for n, ty in l if n != on] + [(n, ty) for n, ty in r if n != on]
+    return None
+
+
+def is_total_order(p: dict, env: t.List[dict]) -> bool:
+    """p ends in an orderBy over all of its columns, possibly followed by limits (which keep a prefix of it)"""
+    while p["k"] == "step" and p["s"]["k"] == "limit":
+        p = p["p"]
+    if not (p["k"] == "step" and p["s"]["k"] == "orderBy"):
+        return False
+    sch = schema_of(p["p"], env)
+    return sch is not None and {x["name"] for x in p["s"]["keys"]} == {n for n, _ in sch}
+
+
+def determined(p: dict, env: t.List[dict]) -> bool:
+    """every truncating limit keeps a prefix of a total order (ties are identical rows), no orderBy sits directly on an
+    orderBy: the bag of rows of the result is then a function of the inputs"""
+    k = p["k"]
+    if k == "base":
+        return True
+    if k == "step":
+        s = p["s"]
+        if s["k"] == "limit" and 0 < s["n"] < c01.BIG and not is_total_order(p["p"], env):
+            return False
+        if s["k"] == "orderBy" and p["p"]["k"] == "step" and p["p"]["s"]["k"] == "orderBy":
+            return False
+        return determined(p["p"], env)
+    if k == "agg":
+        return determined(p["p"], env)
+    return determined(p["l"], env) and determined(p["r"], env)
+
+
+def tree_valid(c: dict) -> bool:
+    env, prog = c["env"], c["prog"]
+    return schema_of(prog, env) is not None and determined(prog, env)
+
+
+def total_order(rng: random.Random, sch: Schema) -> dict:
+    cols = [n for n, _ in sch]
+    rng.shuffle(cols)
+    keys = []
+    for col in cols:
+        desc = rng.random() < 0.4
+        keys.append({"name": col, "desc": desc, "nullsFirst": (not desc) if rng.random() < 0.6 else (rng.random() < 0.5)})
+    return {"k": "orderBy", "keys": keys}
+
+
+def step(p: dict, s: dict) -> dict:
+    return {"k": "step", "p": p, "s": s}
+
+
+def truncated(rng: random.Random, p: dict, sch: Schema, k: t.Optional[int] = None) -> dict:
+    """`p.orderBy(<all columns>).limit(k)`: an operand that carries its own ORDER BY and LIMIT"""
+    return step(step(p, total_order(rng, sch)), {"k": "limit", "n": rng.choice([0, 1, 1, 2, 2, 3]) if k is None else k})
+
+
+def gen_tables(rng: random.Random) -> t.List[dict]:
+    """t0, t1: the same types (set operations / unionByName); t2 shares the key x with t0 (joins that fan out);
+    t3 has names of its own (crossJoin)"""
+    with_s = rng.random() < 0.4
+    s0: Schema = [("x", "int"), ("y", "int")] + ([("s", "str")] if with_s else [])
+    mode = rng.choice(["same", "same", "perm", "fresh"])
+    if mode == "same":
+        s1 = list(s0)
+    elif mode == "perm":
+        s1 = [("y", "int"), ("x", "int")] + s0[2:]
+    else:
+        s1 = [("u", "int"), ("v", "int")] + ([("w", "str")] if with_s else [])
+    s2: Schema = [("x", "int"), ("z", "int")]
+    s3: Schema = [("p", "int")] if rng.random() < 0.5 else [("p", "int"), ("q", "str")]
+    env = []
+    for sch in (s0, s1, s2, s3):
+        rows = X.gen_table(rng, dict(sch), max_rows=rng.choice([4, 6]))
+        if len(rows) < 2:  # growth needs something to grow from
+            rows = rows + [[rng.choice([0, 1, 2, 3]) if ty == "int" else rng.choice(["a", "b"]) for _, ty in sch] for _ in range(3)]
+        env.append({"schema": [[n, ty] for n, ty in sch], "rows": rows})
+    return env
+
+
+def operand(rng: random.Random, env: t.List[dict], i: int, trunc: t.Optional[bool], k: t.Optional[int] = None) -> t.Tuple[dict, Schema]:
+    p: dict = {"k": "base", "i": i}
+    sch: Schema = [(n, ty) for n, ty in env[i]["schema"]]
+    c = rng.random()
+    if c < 0.15:
+        p = step(p, {"k": "where", "p": X.Gen(rng, dict(sch)).bool_expr(1)})
+    elif c < 0.25:
+        p = step(p, {"k": "distinct"})
+    if trunc if trunc is not None else rng.random() < 0.7:
+        p = truncated(rng, p, sch, k)
+    return p, sch
+
+
+def combine(rng: random.Random, env: t.List[dict], kind: str, side: str, k: t.Optional[int] = None) -> t.Tuple[dict, Schema]:
+    """one row-combining operation over operands of which `side` (l / r / both / none) carry ORDER BY + LIMIT"""
+    tl, tr = side in ("l", "both"), side in ("r", "both")
+    l, ls = operand(rng, env, 0, tl, k)
+    if kind in SETOPS:
+        r, _ = operand(rng, env, 1, tr, k)
+        return {"k": "setop", "m": kind, "l": l, "r": r}, ls
+    if kind in ("byName", "byNameMissing"):
+        r, rs = operand(rng, env, 1, tr, k)
+        am = kind == "byNameMissing"
+        if not am and {n for n, _ in rs} != {n for n, _ in ls}:
+            am = True
+        p = {"k": "byName", "am": am, "l": l, "r": r}
+        return p, ls + [(n, ty) for n, ty in rs if n not in dict(ls)] if am else ls
+    if kind in ("join", "joinLeft"):
+        r, rs = operand(rng, env, 2, tr, k)
+        p = {"k": "join", "how": "left" if kind == "joinLeft" else "inner", "on": "x", "l": l, "r": r}
+        return p, [("x", "int")] + [(n, ty) for n, ty in ls if n != "x"] + [(n, ty) for n, ty in rs if n != "x"]
+    if kind == "crossJoin":
+        r, rs = operand(rng, env, 3, tr, k)
+        return {"k": "crossJoin", "l": l, "r": r}, ls + rs
+    if kind == "unpivot":
+        ids = [n for n, _ in ls[2:]] if rng.random() < 0.5 else []
+        return step(l, {"k": "unpivot", "ids": ids, "vals": ["x", "y"], "var": "var", "val": "val"}), [(n, ty) for n, ty in ls if n in ids] + [("var", "str"), ("val", "int")]
+    if kind == "agg":
+        return {"k": "agg", "keys": ["x"], "p": l}, [("x", "int"), ("c", "int")]
+    raise ValueError(kind)
+
+
+def gen_tree(rng: random.Random, kind: t.Optional[str] = None, side: t.Optional[str] = None, k: t.Optional[int] = None) -> t.Optional[dict]:
+    env = gen_tables(rng)
+    kind = kind or rng.choice(GROW_KINDS)
+    side = side or rng.choice(["l", "r", "both", "both", "none"])
+    p, sch = combine(rng, env, kind, side, k)
+    if rng.random() < 0.25 and [ty for _, ty in sch] == [ty for _, ty in env[1]["schema"]] and kind not in ("byName", "byNameMissing") and side != "r":
+        # a second level: the (possibly truncated again) combination is united with one more operand
+        if rng.random() < 0.5:
+            p = truncated(rng, p, sch)
+        p = {"k": "setop", "m": rng.choice(["union", "unionAll"]), "l": p, "r": {"k": "base", "i": 1}}
+    c = rng.random()
+    if c < 0.12:
+        p = step(p, {"k": "where", "p": X.Gen(rng, dict(sch)).bool_expr(1)})
+    elif c < 0.2:
+        p = step(p, {"k": "distinct"})
+    elif c < 0.28:
+        ints = [n for n, ty in sch if ty == "int"]
+        if ints:
+            p = step(p, {"k": "withColumn", "n": "w9", "e": ("bin", "add", ("col", rng.choice(ints)), ("lit", 1))})
+            sch = sch + [("w9", "int")]
+    ordered = rng.random() < 0.8
+    if ordered:
+        p = step(p, total_order(rng, sch))
+        if rng.random() < 0.3:
+            p = step(p, {"k": "limit", "n": rng.choice([0, 1, 2, 3, 5, 50])})
+    case = {"env": env, "prog": p, "ordered": ordered, "n": rng.choice([0, 1, 2, 3, 4, 7, 20]),
+            "names": [rng.choice(NAME_POOL) for _ in range(rng.randint(1, 4))], "family": f"tree:{kind}:{side}"}
+    # only the tables the program mentions (smaller replays)
+    return case if tree_valid(case) else None
+
+
+def prog_to_lean(p: dict) -> t.Any:
+    k = p["k"]
+    if k == "base":
+        return {"base": {"i": p["i"]}}
+    if k == "step":
+        return {"step": {"p": prog_to_lean(p["p"]), "s": c01.step_to_lean(p["s"])}}
+    if k == "setop":
+        return {"setop": {"m": p["m"], "l": prog_to_lean(p["l"]), "r": prog_to_lean(p["r"])}}
+    if k == "byName":
+        return {"byName": {"allowMissing": p["am"], "l": prog_to_lean(p["l"]), "r": prog_to_lean(p["r"])}}
+    raise ValueError(k)
+
+
+def show_prog(p: dict) -> str:
+    k = p["k"]
+    if k == "base":
+        return f"t{p['i']}"
+    if k == "step":
+        return f"{show_prog(p['p'])}.{c01.show_step(p['s'])}"
+    if k == "setop":
+        return f"{show_prog(p['l'])}.{p['m']}({show_prog(p['r'])})"
+    if k == "byName":
+        return f"{show_prog(p['l'])}.unionByName({show_prog(p['r'])}{', allowMissingColumns=True' if p['am'] else ''})"
+    if k == "join":
+        return f"{show_prog(p['l'])}.join({show_prog(p['r'])}, {p['on']!r}, {p['how']!r})"
+    if k == "crossJoin":
+        return f"{show_prog(p['l'])}.crossJoin({show_prog(p['r'])})"
+    if k == "agg":
+        return f"{show_prog(p['p'])}.groupBy({', '.join(map(repr, p['keys']))}).agg(count(lit(1)).alias('c'))"
+    return str(p)
+
+
+def bases_used(p: dict) -> t.Set[int]:
+    if p["k"] == "base":
+        return {p["i"]}
+    if p["k"] in ("step", "agg"):
+        return bases_used(p["p"])
+    return bases_used(p["l"]) | bases_used(p["r"])
+
+
+def build_prog(p: dict, bases: t.List[t.Any], F: t.Any) -> t.Any:
+    k = p["k"]
+    if k == "base":
+        return bases[p["i"]]()
+    if k == "step":
+        return c01.apply_step(build_prog(p["p"], bases, F), p["s"], F)
+    if k == "agg":
+        return build_prog(p["p"], bases, F).groupBy(*p["keys"]).agg(F.count(F.lit(1)).alias("c"))
+    l, r = build_prog(p["l"], bases, F), build_prog(p["r"], bases, F)
+    if k == "setop":
+        return getattr(l, p["m"])(r)
+    if k == "byName":
+        return l.unionByName(r, allowMissingColumns=True) if p["am"] else l.unionByName(r)
+    if k == "join":
+        return l.join(r, p["on"], p["how"])
+    if k == "crossJoin":
+        return l.crossJoin(r)
+    raise ValueError(k)
+
+
+def build_df(c: dict, F: t.Any) -> t.Any:
+    env, prog = tree_of(c)
+    bases = [(lambda e=e: X.make_df(c01.session(), {n: ty for n, ty in e["schema"]}, e["rows"])) for e in env]
+    return build_prog(prog, bases, F)
+
+
+def case_to_lean(i: int, c: dict, impl_cols: t.Optional[t.List[str]] = None) -> dict:
+    env, prog = tree_of(c)
+    if not in_lean(prog):
+        # outside the Lean model: only `_unique_field_names` of the result's columns is asked for
+        return {"case": i, "env": [{"cols": list(impl_cols or []), "rows": []}], "prog": {"base": {"i": 0}}, "n": c["n"], "names": c["names"]}
+    return {"case": i, "env": [X.table_to_lean([n for n, _ in e["schema"]], e["rows"]) for e in env], "prog": prog_to_lean(prog), "n": c["n"], "names": c["names"]}
 
 
 def _norm(v: t.Any) -> t.Any:
@@ -121,9 +428,7 @@ def run_impl(c: dict) -> dict:
 
     out: t.Dict[str, t.Any] = {}
     try:
-        df = X.make_df(c01.session(), c["schema"], c["rows"])
-        for s in c["steps"]:
-            df = c01.apply_step(df, s, F)
+        df = build_df(c, F)
         n = c["n"]
         sql_before = df.sql(optimize=False)
         cols_before = list(df.columns)
@@ -138,6 +443,15 @@ def run_impl(c: dict) -> dict:
         out["first2"] = None if f is None else [plain(v) for v in f]
         out["head"] = [[plain(v) for v in r] for r in df.head(n)]
         out["limit"] = [[plain(v) for v in r] for r in df.limit(n).collect()]
+        # a limit that is larger than anything here must change nothing
+        big = df.limit(PROBE)
+        out["limit_big"] = len(big.collect())
+        out["limit_count"] = df.limit(n).count()
+        # structure of the statement, for the correspondence with the model: the LIMIT nodes in CTE bodies (WITH order) and
+        # the LIMIT `limit(PROBE)` leaves on the outer SELECT (PROBE itself unless it merged with one it found)
+        out["inner_limits"] = inner_limits(df.expression)
+        lim = big.expression.args.get("limit")
+        out["probe"] = int(lim.expression.this) if lim is not None else None
         with warnings.catch_warnings():
             warnings.simplefilter("ignore")
             pdf = df.toPandas()
@@ -159,6 +473,15 @@ def run_impl(c: dict) -> dict:
             out["pair_problems"] = action_pairs(df, n, c["ordered"])
     except Exception as e:  # noqa
         out["err"] = f"{type(e).__name__}: {str(e)[:300]}"
+    return out
+
+
+def inner_limits(expression: t.Any) -> t.List[int]:
+    from sqlglot import exp
+
+    out = []
+    for cte in expression.ctes:
+        out += [int(x.expression.this) for x in cte.this.find_all(exp.Limit)]
     return out
 
 
@@ -242,16 +565,19 @@ def cell(v: t.Any) -> str:
 
 
 def judge(c: dict, impl: dict, o: dict) -> t.Tuple[t.List[str], t.List[str]]:
-    """returns (property failures: implementation vs specification/own collect, model mismatches)"""
+    """returns (property failures: implementation vs specification/own collect, model mismatches);
+    `o["lean"]` false = the program is outside the Lean model: only the property itself is judged"""
     fails: t.List[str] = []
     mm: t.List[str] = []
     if "err" in impl:
         return [f"action raised: {impl['err']}"], ["error"]
     C, n, ordered = impl["collect"], c["n"], c["ordered"]
-    spec = o["spec"]
+    lean = o.get("lean", True)
     # --- the property itself, against the implementation's own collect() and the specification
-    if impl["cols"] != spec["cols"] or bag(C) != bag(spec["rows"]) or (ordered and C != spec["rows"]):
-        fails.append("collect() differs from the sequential specification")
+    if lean:
+        spec = o["spec"]
+        if impl["cols"] != spec["cols"] or bag(C) != bag(spec["rows"]) or (ordered and C != spec["rows"]):
+            fails.append("collect() differs from the sequential specification")
     if impl["count"] != len(C):
         fails.append(f"count()={impl['count']} but collect() has {len(C)} rows")
     if impl["isEmpty"] != (len(C) == 0):
@@ -267,6 +593,12 @@ def judge(c: dict, impl: dict, o: dict) -> t.Tuple[t.List[str], t.List[str]]:
             fails.append(f"{key}({n}) returned {len(impl[key])} rows of {len(C)}")
         elif ordered and impl[key] != C[:n]:
             fails.append(f"{key}({n}) is not the first {n} collected rows")
+        elif not ordered and not set(bag(impl[key])) <= set(bag(C)):
+            fails.append(f"{key}({n}) returned a row that collect() does not")
+    if impl["limit_big"] != len(C):
+        fails.append(f"limit({PROBE}).collect() returned {impl['limit_big']} rows of {len(C)}")
+    if impl["limit_count"] != min(n, len(C)):
+        fails.append(f"limit({n}).count()={impl['limit_count']} for a DataFrame of {len(C)} rows")
     if impl["pandas_cols"] != impl["cols"] or (impl["pandas"] != C if ordered else bag(impl["pandas"]) != bag(C)):
         fails.append("toPandas() differs from collect()")
     if impl["arrow_cols"] != impl["cols"] or (impl["arrow"] != C if ordered else bag(impl["arrow"]) != bag(C)):
@@ -275,8 +607,8 @@ def judge(c: dict, impl: dict, o: dict) -> t.Tuple[t.List[str], t.List[str]]:
     want_rows = [[cell(v) for v in r] for r in C[:n]]
     if len(rows) != min(n, len(C)) or (ordered and rows != want_rows):
         fails.append(f"show({n}) does not print the first {n} rows")
-    if hdr != o["unique_cols"]:
-        fails.append(f"show({n}) header {hdr} is not the column names {o['unique_cols']}")
+    if hdr != o["uniqueCols"]:
+        fails.append(f"show({n}) header {hdr} is not the column names {o['uniqueCols']}")
     if impl["again"] != C if ordered else bag(impl["again"]) != bag(C):
         fails.append("collect() changed after running the other actions")
     for pb in impl.get("pair_problems", []):
@@ -286,6 +618,12 @@ def judge(c: dict, impl: dict, o: dict) -> t.Tuple[t.List[str], t.List[str]]:
     if len(set(impl["unique"])) != len(impl["unique"]):
         fails.append(f"_unique_field_names({c['names']}) = {impl['unique']} has duplicates")
     # --- correspondence with the model
+    if o["unique"] != impl["unique"]:
+        mm.append("unique")
+    if not lean:
+        return fails, mm
+    if o["collect"]["cols"] != impl["cols"] or bag(o["collect"]["rows"]) != bag(C) or (ordered and o["collect"]["rows"] != C):
+        mm.append("collect")
     if o["count"] != impl["count"]:
         mm.append("count")
     if o["isEmpty"] != impl["isEmpty"]:
@@ -295,15 +633,22 @@ def judge(c: dict, impl: dict, o: dict) -> t.Tuple[t.List[str], t.List[str]]:
             mm.append("first")
         if o["head"] != impl["head"]:
             mm.append("head")
+        if o["limit"] != impl["limit"]:
+            mm.append("limit")
         if [[cell(v) for v in r] for r in o["showRows"]] != rows:
             mm.append("showRows")
     else:
         if len(o["head"]) != len(impl["head"]):
             mm.append("head-len")
+        if len(o["limit"]) != len(impl["limit"]):
+            mm.append("limit-len")
     if o["showNames"] != hdr:
         mm.append("showNames")
-    if o["unique"] != impl["unique"]:
-        mm.append("unique")
+    # which LIMIT nodes the statement carries in its CTEs, and which one `limit` found to merge with
+    if o["innerLimits"] != impl["inner_limits"]:
+        mm.append(f"inner-limits (model {o['innerLimits']}, statement {impl['inner_limits']})")
+    if o["probe"] != impl["probe"]:
+        mm.append(f"limit-lookup (limit({PROBE}) leaves LIMIT {impl['probe']} on the statement, the model says {o['probe']})")
     return fails, mm
 
 
@@ -378,34 +723,59 @@ def gen_dup(rng: random.Random) -> dict:
 
 
 def evaluate(cases: t.List[dict], workers: int = 0) -> t.List[dict]:
-    # the header the specification expects: the column names, made unique -- ask the driver for it
-    lean_cases = []
-    for i, c in enumerate(cases):
-        lean_cases.append(case_to_lean(i, c))
-    outs = vlib.run_driver("C11", lean_cases)
-    # second pass: unique names of the *result columns* (needs the spec's columns)
-    aux = vlib.run_driver("C11", [dict(lc, steps=[], names=o["spec"]["cols"]) for lc, o in zip(lean_cases, outs)])
+    t0 = time.time()
     impls = vlib.parallel_map(run_impl, cases, workers)
+    if len(cases) > 50:
+        vlib.log(f"C11: implementation side of {len(cases)} cases: {time.time() - t0:.1f}s")
+    outs = vlib.run_driver("C11", [case_to_lean(i, c, impl.get("cols")) for i, (c, impl) in enumerate(zip(cases, impls))])
     res = []
-    for c, o, a, impl in zip(cases, outs, aux, impls):
-        o["unique_cols"] = a["unique"]
+    for c, o, impl in zip(cases, outs, impls):
+        if "err" in o:
+            raise RuntimeError(f"driver rejected a case: {o}")
+        o["lean"] = in_lean(tree_of(c)[1])
         fails, mm = judge(c, impl, o)
-        res.append({"case": c, "impl": impl, "model": o, "fails": fails, "mismatch": mm, "scope": o["scope"]})
+        res.append({"case": c, "impl": impl, "model": o, "fails": fails, "mismatch": mm, "scope": scope_of(c, impl, o)})
     return res
 
 
-def shrink(c: dict, failing: t.Callable[[dict], bool], rounds: int = 8) -> dict:
-    best = c
+def tree_shrinks(p: dict) -> t.Iterator[dict]:
+    """smaller programs: a node replaced by one of its operands, anywhere in the tree"""
+    k = p["k"]
+    if k == "base":
+        return
+    kids = [("p", p["p"])] if k in ("step", "agg") else [("l", p["l"]), ("r", p["r"])]
+    for name, ch in kids:
+        yield ch
+        for sub in tree_shrinks(ch):
+            yield dict(p, **{name: sub})
+
+
+def shrink(c: dict, failing: t.Callable[[dict], bool], rounds: int = 10, keep_pairs: bool = False) -> dict:
+    best = c if keep_pairs else {k: v for k, v in c.items() if k != "pairs"}
     for _ in range(rounds):
-        cands = [dict(best, steps=best["steps"][:i] + best["steps"][i + 1 :]) for i in range(len(best["steps"]))]
-        cands += [dict(best, rows=best["rows"][:i] + best["rows"][i + 1 :]) for i in range(len(best["rows"]))]
+        cands: t.List[dict] = []
+        if is_tree(best):
+            cands += [dict(best, prog=q) for q in tree_shrinks(best["prog"])]
+            used = bases_used(best["prog"])
+            for i in sorted(used):
+                e = best["env"][i]
+                for j in range(len(e["rows"])):
+                    env = list(best["env"])
+                    env[i] = dict(e, rows=e["rows"][:j] + e["rows"][j + 1 :])
+                    cands.append(dict(best, env=env))
+            cands = [x for x in cands if tree_valid(x)]
+            for x in cands:
+                x["ordered"] = is_total_order(x["prog"], x["env"])
+        else:
+            cands += [dict(best, steps=best["steps"][:i] + best["steps"][i + 1 :]) for i in range(len(best["steps"]))]
+            cands += [dict(best, rows=best["rows"][:i] + best["rows"][i + 1 :]) for i in range(len(best["rows"]))]
+            cands = [x for x in cands if c01.valid(x) and not c01.has_risky_limit(x)]
+            for x in cands:
+                x["ordered"] = bool(x["steps"]) and c01.order_checked(x)
         cands += [dict(best, names=best["names"][:i] + best["names"][i + 1 :]) for i in range(len(best["names"])) if len(best["names"]) > 1]
-        cands = [x for x in cands if c01.valid(x) and not c01.has_risky_limit(x)]
-        for x in cands:
-            x["ordered"] = bool(x["steps"]) and c01.order_checked(x)
         if not cands:
             break
-        res = evaluate(cands, workers=1)
+        res = evaluate(cands[:60], workers=1)
         nxt = next((r["case"] for r in res if failing(r)), None)
         if nxt is None:
             break
@@ -414,7 +784,20 @@ def shrink(c: dict, failing: t.Callable[[dict], bool], rounds: int = 8) -> dict:
 
 
 def show_case(c: dict) -> str:
+    if is_tree(c):
+        tabs = "; ".join(f"t{i}={[n for n, _ in e['schema']]}{e['rows']}" for i, e in enumerate(c["env"]) if i in bases_used(c["prog"]))
+        return f"{tabs}; {show_prog(c['prog'])}  [n={c['n']}, names={c['names']}]"
     return c01.show_case(c) + f"  [n={c['n']}, names={c['names']}]"
+
+
+def scope_of(r_case: dict, impl: dict, o: dict) -> t.List[str]:
+    """violated scope hypotheses; for a program outside the Lean model, H_showNonEmpty is read off the implementation's own
+    collect() (the driver's answer for an empty table tells whether the source still has the header rule)"""
+    if o.get("lean", True):
+        return o["scope"]
+    if "err" in impl:
+        return []
+    return ["H_showNonEmpty"] if "H_showNonEmpty" in o["scope"] and min(r_case["n"], len(impl["collect"])) == 0 else []
 
 
 def run(ctx: Ctx) -> None:
@@ -433,19 +816,47 @@ def run(ctx: Ctx) -> None:
         if c and c01.valid(c) and not c01.has_risky_limit(c):
             cases.append(c)
     # every ordered pair of actions on the same DataFrame object, for a few DataFrames
-    npairs = 0
-    for c in cases:
-        if c["rows"] and c.get("ordered") and npairs < (24 if ctx.thorough else 4):
-            c["pairs"] = True
-            npairs += 1
-    res = evaluate(cases)
+    def spread_pairs(cs: t.List[dict], k: int) -> None:
+        # spaced out over the list, so that the (slow) pair cases land in different chunks of the worker pool
+        cand = [c for c in cs if c.get("ordered") and (is_tree(c) or c["rows"])]
+        for j in range(min(k, len(cand))):
+            cand[j * len(cand) // k]["pairs"] = True
+
+    spread_pairs(cases, 24 if ctx.thorough else 4)
+    # tree programs.  Targeted grid: every row-combining operation x which operand carries its own ORDER BY + LIMIT x
+    # that LIMIT's value (an action's LIMIT that merges with / is capped by a LIMIT of an inner scope shows when the
+    # combination has more rows than the operand's LIMIT); then random trees
+    trees: t.List[dict] = []
+    for kind in GROW_KINDS:
+        for side in ("l", "r", "both"):
+            for k in (0, 1, 2):
+                if side == "r" and kind in ("unpivot", "agg"):
+                    continue
+                for _ in range(2 if ctx.thorough else 1):
+                    c = gen_tree(ctx.rng, kind, side, k)
+                    if c:
+                        # an n above the inner LIMIT (and, mostly, above the result size) and one below
+                        c["n"] = ctx.rng.choice([k + 1, k + 2, 7, 20, 20]) if ctx.rng.random() < 0.8 else ctx.rng.choice([0, 1, k])
+                        trees.append(c)
+    for _ in range(600 if ctx.thorough else 70):
+        c = gen_tree(ctx.rng)
+        if c:
+            trees.append(c)
+    spread_pairs(trees, 12 if ctx.thorough else 2)
+    # the recorded witnesses of the open known findings ride along (replayed on the real code on every run)
+    witnesses = [dict(e["witness"], witness_of=h) for h, e in known.items() if e.get("witness")]
+    vlib.log(f"C11: proved/generated at {ctx.elapsed():.1f}s; {len(cases)} chains, {len(trees)} trees")
+    res_all = evaluate(cases + trees + witnesses)
+    vlib.log(f"C11: main stream done at {ctx.elapsed():.1f}s")
+    res = res_all[: len(cases) + len(trees)]
+    res_w = res_all[len(cases) + len(trees) :]
 
     # DataFrames with repeated column names (outside the single-table Lean model: the property itself is checked,
     # and the header against the Lean `uniqueFieldNames`)
     dups = [gen_dup(ctx.rng) for _ in range(300 if ctx.thorough else 40)]
     dimpl = vlib.parallel_map(run_dup, dups)
     dcols = [im.get("cols", []) for im in dimpl]
-    dout = vlib.run_driver("C11", [{"case": i, "n": 0, "names": cols, "table": {"cols": [], "rows": []}, "steps": []} for i, cols in enumerate(dcols)])
+    dout = vlib.run_driver("C11", [{"case": i, "n": 0, "names": cols, "env": [{"cols": [], "rows": []}], "prog": {"base": {"i": 0}}} for i, cols in enumerate(dcols)])
     dup_viol = []
     for c, im, o in zip(dups, dimpl, dout):
         f = judge_dup(c, im, o["unique"])
@@ -469,18 +880,17 @@ def run(ctx: Ctx) -> None:
                         vlib.report_known(ctx, known[h], known[h]["summary"])
             else:
                 new_viol.append(r)
-    for h, e in known.items():
-        if e.get("witness"):
-            r = evaluate([e["witness"]], workers=1)[0]
-            if r["fails"]:
-                vlib.report_known(ctx, e, e["summary"])
+    for r in res_w:
+        e = known[r["case"]["witness_of"]]
+        if r["fails"]:
+            vlib.report_known(ctx, e, e["summary"])
 
     mism = [r for r in res if r["mismatch"]]
     if mism:
-        ctx.broken.append(f"correspondence stream (actions of the implementation vs Impl/C11.lean): {len(mism)} of {len(res)} cases differ, e.g. {mism[0]['mismatch']}")
+        ctx.broken.append(f"correspondence stream (actions of the implementation vs Impl/C11.lean, Impl/C11Tree.lean): {len(mism)} of {len(res)} cases differ, e.g. {mism[0]['mismatch']} on {show_case(mism[0]['case'])[:300]}")
     reported = 0
     for r in new_viol[:3]:
-        c = shrink(r["case"], lambda rr: bool(rr["fails"]) and not is_known(rr))
+        c = shrink(r["case"], lambda rr: bool(rr["fails"]) and not is_known(rr), keep_pairs=all("alters the result" in f for f in r["fails"]))
         rr = evaluate([c], workers=1)[0]
         vlib.report_violation(
             ctx,
@@ -498,14 +908,23 @@ def run(ctx: Ctx) -> None:
             no_input=True,
         )
 
-    nontrivial = {vlib.digest([r["case"]["steps"], r["case"]["rows"], r["case"]["n"]]) for r in res if "err" not in r["impl"] and r["impl"]["collect"]}
+    nontrivial = {vlib.digest([tree_of(r["case"]), r["case"]["n"]]) for r in res if "err" not in r["impl"] and r["impl"]["collect"]}
+    tres = [r for r in res if is_tree(r["case"])]
+    capped = [r for r in tres if "err" not in r["impl"] and r["impl"]["inner_limits"] and r["case"]["n"] > min(r["impl"]["inner_limits"]) and len(r["impl"]["collect"]) > min(r["impl"]["inner_limits"])]
     ctx.cov.update(
         {
             "evaluations": len(res),
             "distinct_nontrivial": len(nontrivial),
-            "rule": "DataFrames built by random C01 chains (length 0..6, mostly ending in a total orderBy so that prefixes are determined) x n in {0,1,2,3,7,20} x "
-            "all actions (collect,count,isEmpty,head(),first(),head(n),limit(n).collect(),toPandas,toArrow,show(n)) + adversarial duplicate field-name lists; "
-            "non-trivial = distinct (steps, rows, n) with a non-empty collect()",
+            "rule": "DataFrames built by random C01 chains (length 0..6, mostly ending in a total orderBy so that prefixes are determined) and by tree programs "
+            "(grid: 12 row-combining operations x which operand carries orderBy+limit(k) x k in {0,1,2}; then random trees, some two levels deep, with further steps after "
+            "the combination) x n in {0,1,2,3,4,7,20,k+1,k+2} x all actions (collect,count,isEmpty,head(),first(),head(n),limit(n).collect(),limit(n).count(),"
+            "limit(10^6).collect(),toPandas,toArrow,show(n)) + adversarial duplicate field-name lists; non-trivial = distinct (program, tables, n) with a non-empty collect()",
+            "tree_programs": len(tres),
+            "tree_programs_in_lean_model": sum(1 for r in tres if r["model"].get("lean")),
+            "tree_programs_inside_C11_tree": sum(1 for r in tres if r["model"].get("lean") and r["model"].get("wf")),
+            "tree_families": {f: sum(1 for r in tres if r["case"].get("family", "").split(":")[1:2] == [f]) for f in GROW_KINDS},
+            "statements_with_a_LIMIT_inside_a_CTE": sum(1 for r in res if "err" not in r["impl"] and r["impl"]["inner_limits"]),
+            "actions_asked_for_more_rows_than_an_inner_LIMIT_on_a_larger_result": len(capped),
             "traces_validated_against_impl": sum(1 for r in res if not r["mismatch"]),
             "property_failures": sum(1 for r in res if r["fails"]),
             "ordered_cases": sum(1 for r in res if r["case"]["ordered"]),
@@ -520,6 +939,8 @@ def run(ctx: Ctx) -> None:
         "collect()'s rows are what Core/Sql.lean's block evaluation says (C01's assumption)",
         "pandas / arrow value conversion and PrettyTable's text layout are third-party: compared executably, not proved",
         "head/first/show prefixes are only compared exactly under a total ORDER BY (the engine's LIMIT without one is nondeterministic)",
+        "tree programs with joins / crossJoin / groupBy are outside the Lean model: every action is compared with collect() of the same DataFrame only",
+        "set operators are positional on the operands' rows (Impl/C07SetOps.lean evalSetop, C07's assumption); the order of a UNION's rows is compared only after a total orderBy",
     ]
 
 
@@ -527,7 +948,7 @@ def replay(ctx: Ctx, rp: dict) -> None:
     c = rp.get("case")
     if c and c.get("dup"):
         im = run_dup(c)
-        o = vlib.run_driver("C11", [{"case": 0, "n": 0, "names": im.get("cols", []), "table": {"cols": [], "rows": []}, "steps": []}])[0]
+        o = vlib.run_driver("C11", [{"case": 0, "n": 0, "names": im.get("cols", []), "env": [{"cols": [], "rows": []}], "prog": {"base": {"i": 0}}}])[0]
         f = judge_dup(c, im, o["unique"])
         print(json.dumps({"failures": f}, indent=1))
         if f:
